@@ -211,6 +211,29 @@ func decompress(format int, b []byte) ([]byte, error) {
 	return io.ReadAll(r)
 }
 
+// decompressPartial returns whatever the decoder produced before it failed
+func decompressPartial(format int, b []byte) ([]byte, error) {
+	var r io.ReadCloser
+	var err error
+	switch format {
+	case 1:
+		r = flate.NewReader(bytes.NewReader(b))
+	case 2:
+		r, err = gzip.NewReader(bytes.NewReader(b))
+	case 3:
+		r = lzw.NewReader(bytes.NewReader(b), lzw.MSB, 8)
+	case 4:
+		r, err = zlib.NewReader(bytes.NewReader(b))
+	}
+	if err != nil || r == nil {
+		return nil, err
+	}
+	defer r.Close()
+	var buf bytes.Buffer
+	_, err = buf.ReadFrom(io.LimitReader(r, 1<<22))
+	return buf.Bytes(), err
+}
+
 // parseLayout walks the tx log from offset 0 and must reproduce the commit log exactly.
 func parseLayout(dir string, cfg *cfgClass, ntx int) (*layout, error) {
 	l := &layout{cfg: cfg, logs: map[string]*logFile{}}
